@@ -2,7 +2,7 @@
 pub(crate) mod verif_kani_metadata {
     //! U3: metadata block encoding, validation, generation.
     use super::*;
-    use crate::storage::seq_token::verif_kani_seq::{crc32c_spec, stub_crc32c_impl};
+    use crate::storage::seq_token::verif_kani_seq::{ghost_chain_is, ghost_chain_result, ghost_chains, ghost_reset, stub_crc32c_impl_fnv, stub_crc32c_impl_ghost};
 
     pub(crate) fn any_metadata() -> Metadata {
         Metadata {
@@ -33,30 +33,27 @@ pub(crate) mod verif_kani_metadata {
         u64::from_le_bytes([b[at], b[at + 1], b[at + 2], b[at + 3], b[at + 4], b[at + 5], b[at + 6], b[at + 7]])
     }
 
-    /// Independent statement of validity over the 136 encoded bytes (documented layout).
-    fn valid_image(b: &[u8; 136]) -> bool {
+    /// Independent statement of the plain-field validity conditions over the 136 encoded bytes.
+    fn plain_valid(b: &[u8; 136]) -> bool {
         let sig_ok = b[0] == b'F' && b[1] == b'E' && b[2] == b'O' && b[3] == b'X' && b[4] == b'_' && b[5] == b'S' && b[6] == b'I' && b[7] == b'G';
         let version = le32(b, 8);
         let device = le64(b, 32);
-        let has_ck = b[64] == b'F' && b[65] == b'M' && b[66] == b'3' && b[67] == b'C';
-        if !sig_ok || le32(b, 40) != 4096 || version == 0 || version > 3 || device == 0 || device > (1u64 << 40) {
-            return false;
-        }
-        if version >= 3 && !has_ck {
-            return false;
-        }
-        if !has_ck {
-            return true;
-        }
-        // checksum covers: sig, version, records, size, device, block size, fragmentation, two times, reserved[12..]
+        sig_ok && le32(b, 40) == 4096 && version >= 1 && version <= 3 && device != 0 && device <= (1u64 << 40)
+    }
+
+    fn has_checksum(b: &[u8; 136]) -> bool {
+        b[64] == b'F' && b[65] == b'M' && b[66] == b'3' && b[67] == b'C'
+    }
+
+    /// The byte string the checksum covers: sig, version, records, size, device, block size,
+    /// fragmentation, the two times, reserved[12..] (generation and the rest) - i.e. everything
+    /// except the padding at 12..16, the magic/checksum/complement at 64..76 and the tail 132..136.
+    fn checksum_input(b: &[u8; 136]) -> [u8; 116] {
         let mut cat = [0u8; 116];
-        cat[..8].copy_from_slice(&b[..8]);
-        cat[8..12].copy_from_slice(&b[8..12]);
-        cat[12..44].copy_from_slice(&b[16..48]);
-        cat[44..60].copy_from_slice(&b[48..64]);
+        cat[..12].copy_from_slice(&b[..12]);
+        cat[12..60].copy_from_slice(&b[16..64]);
         cat[60..116].copy_from_slice(&b[76..132]);
-        let ck = le32(b, 68);
-        le32(b, 72) == !ck && ck == crc32c_spec(0, &cat)
+        cat
     }
 
     #[kani::proof]
@@ -79,34 +76,47 @@ pub(crate) mod verif_kani_metadata {
     }
 
     #[kani::proof]
-    #[kani::unwind(120)]
-    #[kani::stub(crate::storage::seq_token::crc32c_impl, stub_crc32c_impl)]
+    #[kani::unwind(140)]
+    #[kani::stub(crate::storage::seq_token::crc32c_impl, stub_crc32c_impl_ghost)]
     fn metadata_from_bytes_contract() {
         let bytes: [u8; 160] = kani::any();
         let n: usize = kani::any();
         kani::assume(n <= 160);
+        ghost_reset();
         let r = Metadata::from_bytes(&bytes[..n]);
         let mut img = [0u8; 136];
         img.copy_from_slice(&bytes[..136]);
-        match r {
+        let ck = le32(&img, 68);
+        let complement_ok = le32(&img, 72) == !ck;
+        match &r {
             Some(m) => {
-                assert!(n >= 136);
-                assert!(valid_image(&img), "accepted images satisfy the documented validity conditions");
-                assert!(m.validate());
+                assert!(n >= 136 && plain_valid(&img), "accepted images satisfy the documented plain-field conditions");
+                assert!(le32(&img, 8) < 3 || has_checksum(&img), "version 3 requires the checksum magic");
+                if has_checksum(&img) {
+                    assert!(complement_ok, "complement must be the bitwise negation of the checksum");
+                    assert!(ghost_chains() == 1 && ghost_chain_is(0, &checksum_input(&img)), "checksum covers exactly the documented bytes, in order");
+                    assert!(ck == ghost_chain_result(0), "stored checksum must equal the recomputed one");
+                } else {
+                    assert!(ghost_chains() == 0, "legacy image without magic: no checksum consulted");
+                }
                 assert!(m.version == le32(&img, 8) && m.device_size == le64(&img, 32) && m.total_records == le64(&img, 16)
                     && m.total_size == le64(&img, 24) && m.generation() == le64(&img, 76), "fields come from the documented offsets");
             }
             None => {
-                assert!(n < 136 || !valid_image(&img), "rejected only when too short or invalid");
+                let checksum_bad = has_checksum(&img) && (!complement_ok || (ghost_chains() == 1 && ck != ghost_chain_result(0)));
+                assert!(n < 136 || !plain_valid(&img) || (le32(&img, 8) >= 3 && !has_checksum(&img)) || checksum_bad,
+                    "rejected only when too short, a plain field is invalid, v3 lacks the magic, or the checksum/complement mismatch");
             }
         }
-        kani::cover!(r.is_some());
-        kani::cover!(r.is_none() && n >= 136);
+        kani::cover!(r.is_some() && has_checksum(&img));
+        kani::cover!(r.is_some() && !has_checksum(&img));
+        kani::cover!(r.is_none() && n >= 136 && plain_valid(&img));
     }
 
+    // instance proof (FNV-1a stand-in for the CRC so that the same bytes hash equally twice)
     #[kani::proof]
-    #[kani::unwind(120)]
-    #[kani::stub(crate::storage::seq_token::crc32c_impl, stub_crc32c_impl)]
+    #[kani::unwind(140)]
+    #[kani::stub(crate::storage::seq_token::crc32c_impl, stub_crc32c_impl_fnv)]
     fn metadata_roundtrip() {
         let m = any_metadata();
         let b = m.encode();
@@ -119,25 +129,25 @@ pub(crate) mod verif_kani_metadata {
     }
 
     #[kani::proof]
-    #[kani::unwind(120)]
-    #[kani::stub(crate::storage::seq_token::crc32c_impl, stub_crc32c_impl)]
+    #[kani::unwind(140)]
+    #[kani::stub(crate::storage::seq_token::crc32c_impl, stub_crc32c_impl_ghost)]
     fn metadata_advance_generation() {
         let mut m = any_metadata();
         let g0 = m.generation();
         let before = m;
+        ghost_reset();
         let r = m.advance_generation();
-        match r {
+        match &r {
             Ok(()) => {
                 assert!(g0 < u64::MAX && m.generation() == g0 + 1, "generation advances by exactly one");
                 assert!(m.version == before.version && m.device_size == before.device_size && m.total_records == before.total_records
-                    && m.total_size == before.total_size && m.signature == before.signature, "nothing else changes");
-                let b = m.encode();
-                let mut img = [0u8; 136];
-                img.copy_from_slice(&b);
-                let fields_ok = m.signature == *FEOX_SIGNATURE && m.block_size == 4096 && m.version >= 1 && m.version <= 3
-                    && m.device_size != 0 && m.device_size <= MAX_DEVICE_SIZE;
-                assert!(m.validate() == fields_ok, "checksum is refreshed: validity depends on the plain fields only");
-                assert!(valid_image(&img) == fields_ok);
+                    && m.total_size == before.total_size && m.signature == before.signature && m.block_size == before.block_size
+                    && m.fragmentation == before.fragmentation && m.creation_time == before.creation_time
+                    && m.last_update_time == before.last_update_time, "no other field changes");
+                let img = m.encode();
+                assert!(has_checksum(&img), "checksum magic present");
+                assert!(ghost_chains() == 1 && ghost_chain_is(0, &checksum_input(&img)), "checksum refreshed over the NEW state");
+                assert!(le32(&img, 68) == ghost_chain_result(0) && le32(&img, 72) == !le32(&img, 68), "checksum and complement stored");
             }
             Err(e) => {
                 assert!(g0 == u64::MAX && matches!(e, FeoxError::InvalidMetadata));
